@@ -17,7 +17,7 @@ CONFIG = dict(
               "a record verifies under exactly the seed it was written with (RecordCodec theorems; in crash cases the judge uses the seed the block list reports at write time, in differential cases the real checksum)",
               "a fresh seed differs from all earlier seeds (real seeds come from random.CryptoThreadSafeGenerator); same geometry across restarts",
               "bytes read are canonicalised by the harness to (key, version) when they equal that version's content exactly (bytes.Equal), else reported raw",
-              "crash_safe is proved for a single crash of a store that started on empty media (incl. the directory/fsync protocol and region reuse); repeated crashes are covered by the any-medium allocation theorems and by nested harness experiments only",
+              "crash safety is proved for arbitrarily many crash+restart rounds (repeated_crash: a history of lives, each on the media the previous crash left; incl. the directory/fsync protocol, region reuse and Robin-Hood re-writes of records of earlier lives); nested harness experiments exercise the same up to 3 restarts deep on the real code",
               "goroutine scheduling below lock/I-O granularity (quiescence via runtime.Stack after every step)",
               "the instrumented LTS (CrashLts.v) itself is tied to the code only through its parts: Persist/PBL.v is replayed on the PBL-level event history of every life (transparent recording wrapper), crash_medium/restart/resolve are evaluated on the implementation's I/O log, and two proved lemmas are checked on that log; the allocator/upload/directory steps of the LTS are hand-modelled"],
 )
